@@ -5,6 +5,7 @@ import VtProofs.MvtOps
 import VtProofs.MvtCodec
 import VtProofs.MvtShape
 import VtProofs.MvtFromIter
+import VtProofs.Csv
 /-!
 # C11 – updating vector-tile properties leaves everything else untouched; PBF round trips
 
@@ -405,5 +406,75 @@ theorem fromIter_tables (ps : List Props) :
 -- the (count, value) order: "b" is used twice, "a" and "c" once → a, c, b; values by variant rank then value
 example : fromIter [[([97], .uint 1), ([98], .str [120])], [([98], .str [120]), ([99], .int (-1))]]
     = ([[97], [99], [98]], [.int (-1), .uint 1, .str [120]]) := by decide
+
+/-! ## 7. the data file (`utils/csv.rs`, `helpers/csv.rs`) -/
+
+section csv
+open VtModel.Csv VtProofs.Csv
+
+/-- **CSV round trip.** Any table whose records are non-empty, not a lone empty cell (that is a blank
+    line for this lexer) and UTF-8, written canonically – cells quoted exactly when they contain the
+    separator, a quote, CR or LF; LF or CRLF line ends – is read back cell for cell. -/
+theorem csv_roundtrip (sep : UInt8) (hs : SepOk sep) (eol : Bytes) (he : EolOk eol)
+    (rows : List (List Bytes)) (hok : RowsOk rows) :
+    lexRows sep (render sep eol rows) [] true [] = .ok rows := by
+  simpa using lexRows_render sep hs eol he rows [] hok
+
+/-- header + data rows of a rendered rectangular table -/
+theorem csv_table_roundtrip (sep : UInt8) (hs : SepOk sep) (eol : Bytes) (he : EolOk eol)
+    (h : List Bytes) (rows : List (List Bytes)) (hok : RowsOk (h :: rows))
+    (hw : ∀ r ∈ rows, r.length = h.length) :
+    table sep (render sep eol (h :: rows)) = .ok (h, rows) := by
+  unfold table
+  rw [csv_roundtrip sep hs eol he (h :: rows) hok]
+  have : rows.all (fun r => r.length == h.length) = true := by
+    simp only [List.all_eq_true, beq_iff_eq]; exact hw
+  simp [this]
+
+/-- line-ending independence: the LF and the CRLF rendering of a table give the same rows -/
+theorem csv_eol_independent (sep : UInt8) (hs : SepOk sep) (rows : List (List Bytes)) (hok : RowsOk rows) :
+    lexRows sep (render sep [10] rows) [] true [] = lexRows sep (render sep [13, 10] rows) [] true [] := by
+  rw [csv_roundtrip sep hs [10] (Or.inl rfl) rows hok, csv_roundtrip sep hs [13, 10] (Or.inr rfl) rows hok]
+
+/-- cells are never trimmed or altered outside quotes: an unquoted cell is every byte up to the next
+    separator / CR / LF (or the end), blanks, tabs, NBSP and inner quotes included -/
+theorem csv_unquoted_verbatim (sep : UInt8) (c t : Bytes) (hc : ∀ b ∈ c, isTerm sep b = false)
+    (ht : t = [] ∨ ∃ b r, t = b :: r ∧ isTerm sep b = true) : simpleCell sep (c ++ t) = (c, t) :=
+  simpleCell_append sep c t hc ht
+
+/-- … and a quoted cell is every byte between the quotes with `""` read as one quote -/
+theorem csv_quoted_verbatim (c t : Bytes) (ht : ∀ b r, t = b :: r → (b == 34) = false) :
+    quotedCell (escape c ++ 34 :: t) = some (c, t) :=
+  quotedCell_escape c t ht
+
+end csv
+
+/-! ### which data row a feature id selects
+
+The join key of a data row is `parse_str(cell).to_string()`, the key of a feature is
+`value.to_string()`; the row of a feature is `dlookup` of that text in the map built by
+`buildDataMap` (later rows replace earlier ones). -/
+
+/-- a cell of ASCII digits (in `u64` range) selects by its numeric value: leading zeros vanish, so `01`
+    and `1` are the same key, and it is the key of the feature ids `UInt 1`, `Int 1`, and the string `"1"` -/
+theorem key_of_digits (s : Bytes) (h1 : s.isEmpty = false) (h2 : s ≠ trueBytes) (h3 : s ≠ falseBytes)
+    (h4 : looksDouble s = false) (h5 : looksInt s = false) (h6 : looksUInt s = true) (h7 : natOfDigits s < U64)
+    (tbl : List (Value × Bytes)) :
+    (parseStr s none).map (fmtValue tbl) = .ok (strBytes (toString (natOfDigits s))) := by
+  simp [parseStr, h1, h2, h3, h4, h5, h6, h7, Outcome.map, Outcome.bind, fmtValue]
+
+/-- any other text (not empty, not `true`/`false`, not number-shaped) is its own key, byte for byte –
+    `"0 "`, `" 0"`, `"1e5"`, `"+1"` are strings and only match a feature whose id prints exactly so -/
+theorem key_of_text (s : Bytes) (h1 : s.isEmpty = false) (h2 : s ≠ trueBytes) (h3 : s ≠ falseBytes)
+    (h4 : looksDouble s = false) (h5 : looksInt s = false) (h6 : looksUInt s = false)
+    (tbl : List (Value × Bytes)) :
+    (parseStr s none).map (fmtValue tbl) = .ok s := by
+  simp [parseStr, h1, h2, h3, h4, h5, h6, Outcome.map, Outcome.bind, fmtValue]
+
+-- `01` is the number 1, `0 ` stays the text `0 `, `-03` is -3 (bytes spelled out)
+example : parseStr [48, 49] none = .ok (.uint 1) := by decide
+example : parseStr [48, 32] none = .ok (.str [48, 32]) := by decide
+example : parseStr [45, 48, 51] none = .ok (.int (-3)) := by decide
+example : VtProofs.Csv.SepOk 44 := ⟨by decide, by decide, by decide⟩
 
 end VtProps.C11
